@@ -34,11 +34,23 @@ class SgraphFromSelectorsTripleYielder(BaseTriplesYielder):
 
 
     def _yield_relevant_sgraph_triples(self, target_nodes, sgraph):
-        for a_triple in self._yield_relevant_direct_triples(target_nodes, sgraph):
-            yield a_triple
-        if self._inverse_paths:
-            for a_triple in self._yield_relevant_inverse_triples(target_nodes, sgraph):
+        if not self._inverse_paths:
+            for a_triple in self._yield_relevant_direct_triples(target_nodes, sgraph):
                 yield a_triple
+            return
+        # A triple between two target nodes is found both among the outgoing triples of its subject and among the
+        # incoming triples of its object: it must be yielded (and counted) only once.
+        already_yielded = set()
+        for a_triple in self._yield_relevant_direct_triples(target_nodes, sgraph):
+            already_yielded.add(self._triple_key(a_triple))
+            yield a_triple
+        for a_triple in self._yield_relevant_inverse_triples(target_nodes, sgraph):
+            if self._triple_key(a_triple) not in already_yielded:
+                yield a_triple
+
+    @staticmethod
+    def _triple_key(a_triple):
+        return str(a_triple[0]), str(a_triple[1]), str(a_triple[2])
 
     def _yield_relevant_direct_triples(self, target_nodes, sgraph):
         for s, p, o in sgraph.yield_p_o_triples_of_target_nodes(target_nodes=target_nodes,
